@@ -274,8 +274,10 @@ def msgOf (s : Srv) : Ev → Msg
   | .s433 r => { source := some srvSrc, verb := lit "433",
                  middles := [(0, if s.registered then s.nick else [42]), (0, r)],
                  trailing := some (0, lit "Nickname is already in use") }
-  | .s001 n => { source := some srvSrc, verb := lit "001", middles := [(0, n)],
-                 trailing := some (0, lit "Welcome to the network " ++ n ++ lit "!ident@host.example") }
+  | .s001 n true => { source := some srvSrc, verb := lit "001", middles := [(0, n)],
+                      trailing := some (0, lit "Welcome to the network " ++ n ++ lit "!ident@host.example") }
+  | .s001 n false => { source := some srvSrc, verb := lit "001", middles := [(0, n)],
+                       trailing := some (0, lit "Welcome to the Internet Relay Network " ++ n) }
   | .sNick new => { source := some (.user s.nick (lit "ident") (lit "host.example")), verb := lit "NICK",
                     middles := [(0, new)] }
   | .sOther frm t2 => { source := some (.user frm (lit "o") (lit "other.example")), verb := lit "NICK", trailing := some (0, t2) }
@@ -286,10 +288,12 @@ theorem render_msgOf (s : Srv) (e : Ev) : render (msgOf s e) = lineOf s e := by
     have : lit ":irc.test 433 " = [58] ++ lit "irc.test" ++ [32] ++ lit "433" ++ [32] := by decide
     have h2 : lit " :Nickname is already in use" = [32, 58] ++ lit "Nickname is already in use" := by decide
     simp [render, msgOf, lineOf, renderMiddles, srvSrc, Source.render, this, h2]
-  | s001 n =>
+  | s001 n mask =>
     have : lit ":irc.test 001 " = [58] ++ lit "irc.test" ++ [32] ++ lit "001" ++ [32] := by decide
     have h2 : lit " :Welcome to the network " = [32, 58] ++ lit "Welcome to the network " := by decide
-    simp [render, msgOf, lineOf, renderMiddles, srvSrc, Source.render, this, h2]
+    have h3 : lit " :Welcome to the Internet Relay Network " =
+        [32, 58] ++ lit "Welcome to the Internet Relay Network " := by decide
+    cases mask <;> simp [render, msgOf, lineOf, renderMiddles, srvSrc, Source.render, this, h2, h3]
   | sNick new =>
     have : lit "!ident@host.example NICK " = [33] ++ lit "ident" ++ [64] ++ lit "host.example" ++ [32] ++ lit "NICK" ++ [32] := by decide
     simp [render, msgOf, lineOf, renderMiddles, Source.render, this]
@@ -298,7 +302,7 @@ theorem render_msgOf (s : Srv) (e : Ev) : render (msgOf s e) = lineOf s e := by
     simp [render, msgOf, lineOf, renderMiddles, Source.render, this]
 
 def evNames : Ev → List Bytes
-  | .s433 r => [r] | .s001 n => [n] | .sNick n => [n] | .sOther f t => [f, t]
+  | .s433 r => [r] | .s001 n _ => [n] | .sNick n => [n] | .sOther f t => [f, t]
 
 theorem NickOk.middleOk {n : Bytes} (h : NickOk n) : middleOk n = true := by
   have h1 := h.1
@@ -323,11 +327,11 @@ theorem msgOf_wf (s : Srv) (e : Ev) (hs : NickOk s.nick) (he : ∀ n ∈ evNames
     have h2 : isMsgVerb (lit "433") = false := by decide
     simp only [Msg.wf, msgOf, hsrv, h1, h2]
     cases s.registered <;> simp [star, hr.middleOk, hs.middleOk]
-  | s001 n =>
+  | s001 n mask =>
     have hr : NickOk n := he n (by simp [evNames])
     have h1 : verbOk (lit "001") = true := by decide
     have h2 : isMsgVerb (lit "001") = false := by decide
-    simp [Msg.wf, msgOf, hsrv, h1, h2, hr.middleOk]
+    cases mask <;> simp [Msg.wf, msgOf, hsrv, h1, h2, hr.middleOk]
   | sNick new =>
     have hr : NickOk new := he new (by simp [evNames])
     have h1 : verbOk (lit "NICK") = true := by decide
@@ -456,17 +460,18 @@ theorem step_inv (gen : Bytes → Bytes) (ext : UnicodeExt) (s : Srv) (c : Clien
       rw [if_pos hc] at this
       simp only [Bool.false_eq_true, if_false]
       exact ⟨this, hg _ hr⟩
-  | s001 n =>
+  | s001 n mask =>
     have hr : NickOk n := he n (by simp [evNames])
-    obtain ⟨e1, e2, _⟩ := expected_base ext (msgOf s (.s001 n)) (show isMsgVerb (lit "001") = false by decide)
-    have hcmd : (expected ext (msgOf s (.s001 n))).cmd = lit "001" := by rw [e1]; exact (by decide : toUpperAscii (lit "001") = lit "001")
-    have htgt : (expected ext (msgOf s (.s001 n))).target = n := by
+    have hv : (msgOf s (.s001 n mask)).verb = lit "001" := by cases mask <;> rfl
+    obtain ⟨e1, e2, _⟩ := expected_base ext (msgOf s (.s001 n mask)) (by rw [hv]; decide)
+    have hcmd : (expected ext (msgOf s (.s001 n mask))).cmd = lit "001" := by rw [e1, hv]; decide
+    have htgt : (expected ext (msgOf s (.s001 n mask))).target = n := by
       simp only [Line.target, hcmd, e2]
-      simp [params, msgOf, show (lit "001" == PRIVMSG) = false by decide, show (lit "001" == NOTICE) = false by decide,
+      cases mask <;> simp [params, msgOf, show (lit "001" == PRIVMSG) = false by decide, show (lit "001" == NOTICE) = false by decide,
         show (lit "001" == ACTION) = false by decide, show (lit "001" == CTCP) = false by decide,
         show (lit "001" == CTCPREPLY) = false by decide]
     rw [dispatch_001 _ _ hcmd]
-    have := h_001_inv h (expected ext (msgOf s (.s001 n)))
+    have := h_001_inv h (expected ext (msgOf s (.s001 n mask)))
     rw [htgt] at this
     exact ⟨this, hr⟩
   | sNick new =>
